@@ -342,7 +342,10 @@ class SparseDisk:
             # Grain not present
             if run_type == 0:
                 if self.parent:
-                    sector_data = self.parent.read_sectors(run_parent, run_count)
+                    # The parent may be smaller than this disk, anything beyond its end reads as zeros
+                    parent_count = max(0, min(run_count, self.parent.sector_count - run_parent))
+                    sector_data = self.parent.read_sectors(run_parent, parent_count) if parent_count else b""
+                    sector_data = sector_data.ljust(run_count * SECTOR_SIZE, b"\x00")
                 else:
                     sector_data = b"\x00" * (run_count * SECTOR_SIZE)
                 sectors_read.append(sector_data)
